@@ -62,7 +62,7 @@ def _close(a, b, tol, scale=1.0):
 # ---------------------------------------------------------------- (a), (b) comparison
 
 def compare_tol(method, sig):
-    if method.startswith('bures'):
+    if method.startswith('bures') or method == 'neg_riem_dist':
         return 1e-4
     if method in ('corr_cov', 'cosine_cov') and sig is not None:
         return 5e-4
@@ -111,13 +111,13 @@ def check_compare(case, call):
                     method=method, maskkind=case.get('maskkind'))
     mask = masks[0]
     xd, yd = [deleted(r) for r in x], [deleted(r) for r in y]
-    if method.startswith('bures'):
+    if method.startswith('bures') or method == 'neg_riem_dist':
         exp = call([[v for v in r if v is not None] for r in case['x']],
                    [[v for v in r if v is not None] for r in case['y']], method, None, 'array')
         if isinstance(exp, dict) or isinstance(obs, dict):
             if exp == obs:
                 return None
-            return fail(case, 'deleted', 'Bures measure on masked RDMs differs from the reduced arrays',
+            return fail(case, 'deleted', f'{method} on masked RDMs differs from the reduced arrays',
                         obs, exp, method=method, maskkind=case.get('maskkind'))
     else:
         exp = [[definition(method, n, sig, mask, a, b) for b in yd] for a in xd]
@@ -276,13 +276,16 @@ def pool_full(rows, method, variant, V):
     base = method[:-4] if method.endswith('_cov') else method
     if base == 'corr':
         r = r - r.mean(1, keepdims=True)
+    def nz(a):
+        # a zero norm is replaced by 1: an all-zero / constant RDM stays a zero vector
+        return np.where(a == 0, 1.0, a)
     if cov:
         vi = np.linalg.inv(V)
-        r = r / np.sqrt(np.einsum('ij,jk,ik->i', r, vi, r))[:, None]
+        r = r / nz(np.sqrt(np.einsum('ij,jk,ik->i', r, vi, r)))[:, None]
     elif base == 'cosine':
-        r = r / np.sqrt((r ** 2).mean(1, keepdims=True))
+        r = r / nz(np.sqrt((r ** 2).mean(1, keepdims=True)))
     else:
-        r = r / r.std(1, keepdims=True)
+        r = r / nz(r.std(1, keepdims=True))
     out = r.mean(0)
     if base == 'corr':
         out = out - out.min() + (0.01 if variant == 'pool' else 0.0)
@@ -430,8 +433,8 @@ def check_parse(case, impl):
     else:
         exp = {'x': [[float(F(v)) for v in deleted(r)] for r in x],
                'y': [[float(F(v)) for v in deleted(r)] for r in y], 'mask': masks[0]}
-    for which in ('compare', 'utils'):
-        if impl[which] != exp:
+    for which in ('compare', 'utils', 'utils_rdms'):
+        if which in impl and impl[which] != exp:
             return fail(case, 'reject' if 'exc' in exp else 'parse',
                         f'input parser ({which}) of masked stacks', impl[which], exp, parser=which,
                         maskkind=case.get('maskkind'))
